@@ -142,3 +142,23 @@ reg(
                 "level: the property quantifies over schedules; the suite is single-threaded."),
     level_note="Race freedom is only 'no ThreadSanitizer/Miri report on the executions run' (thorough tier).",
 )
+
+reg(
+    "C18",
+    title="runtime stack algebra",
+    level="exploration",
+    technique="runtime monitoring against an executable model: every operation sequence up to the bound is executed on the real StackFrame/SandboxedStackFrame/GlobalFrame types (push = frame over &dyn Runtime in a recursive call, pop = return) and all lookups, roots and counters are compared with an abstract stack-of-maps model",
+    design_ref="DESIGN.md §5 C18",
+    rule=("a case = (start runtime with/without caller data, operation sequence) over 28 operations {push plain d, push sandboxed d (d in the 9 maps "
+          "over {x,y} x {absent, scalar, object}), push global layer, pop, assign-global k v, set-counter k v}; all sequences up to the stated length "
+          "(pop on an empty stack pruned) are enumerated; after each sequence get and try_get for 6 paths of length 1-2, roots() and get_index are "
+          "observed and compared with the model. distinct = distinct (start, sequence); non-trivial = the sequence contains at least one push."),
+    exhaustive=True,
+    profiles={"quick": ["checked"], "thorough": ["checked"]},
+    floor={"quick": 500000, "thorough": 10000000},
+    assumptions=["values in maps are a scalar or a one-key object; names from a 2-name alphabet", "frames cannot be rolled back, so each sequence is replayed from a fresh runtime and observed at its end; every prefix is itself an enumerated sequence"],
+    level_text=("Exhaustive bounded exploration of the operation alphabet with an independent abstract model as the oracle and every trace executed on the real "
+                "frame types. Right level: the property is an algebraic law over histories of a small API; bounded exhaustion covers all interactions of "
+                "shadowing, sandboxing, global assignment and counters up to the bound."),
+    level_note="The abstract model (about 80 lines) is trusted; sequences longer than the bound are not explored.",
+)
